@@ -18,10 +18,10 @@ theorem C03_accepted_prefix_not_rejected (u : UriImpl) (cfg : ReqCfg) {s d : Byt
   rw [h] at he'; simp at he'
 
 /-- C04 (prefix clause) -/
-theorem C04_prefix_never_rejected {s : Bytes} {e : Fail}
-    (h : respSys.parse Response.new s = .fail e) (d : Bytes) :
-    ∃ e', respSys.parse Response.new (s ++ d) = .fail e' :=
-  Sys.parse_append_fail respSys_lawful respInv_new h d
+theorem C04_prefix_never_rejected (hl : Option Nat) {s : Bytes} {e : Fail}
+    (h : (respSys hl).parse Response.new s = .fail e) (d : Bytes) :
+    ∃ e', (respSys hl).parse Response.new (s ++ d) = .fail e' :=
+  Sys.parse_append_fail (respSys_lawful hl) respInv_new h d
 
 /-- C04 (framing order): Content-Length first … -/
 theorem C04_framing_content_length {s : RespState} {hs : List Header} {c : Nat} {v : Bytes} {cl : Nat}
